@@ -28,6 +28,22 @@ def main():
         if rep is None:
             return 2
         return 1 if res.get("violations") else 0
+    if a.cmd == "regress":
+        # replays of repaired defects and corrected false alarms: none may fail any more
+        import glob
+
+        from simcore import checks
+
+        bad = 0
+        files = sorted(glob.glob(os.path.join(HERE, "regress", "*.json")))
+        for f in files:
+            rep, res = checks.replay_file(f, quiet=True)
+            st = "harness-error" if rep is None else ("FAILS" if res.get("violations") else "ok")
+            if st != "ok":
+                bad += 1
+                print(f"regress {os.path.basename(f)}: {st} {[v['prop'] + '/' + v['oracle'] for v in res.get('violations', [])]}")
+        print(f"regress: {len(files) - bad}/{len(files)} replays pass")
+        return 1 if bad else 0
     if a.cmd == "selftest-determinism":
         from selftest import determinism
 
